@@ -1005,6 +1005,9 @@ class Harness:
             # segments by (attempt and sleep_s are fields of the log record)
             tg = {k: v for k, v in fields.items() if k not in ("attempt", "sleep_s")}
             (rec or self.cur).trace.append(("metric", event, fields.get("attempt"), fields.get("sleep_s"), _tags(tg)))
+            if event == "budget_exhausted" and self.budget is not None:
+                # the same ground truth the metric-side recorder takes
+                (rec or self.cur).trace.append(("budget_level", Budget.remaining(self.budget), self.now()))
         (rec or self.cur).trace.append(("log", event, _tags(fields)))
         self.hook_fault("log")
 
